@@ -332,6 +332,62 @@ pub fn run(tier: Tier) -> i32 {
         }
     }
 
+    // ---- a''. one lber::Parser instance across a stream of elements, the way a connection uses it:
+    // an element that arrives in pieces (every prefix length tried first), then the next ones
+    let mut parser_reuse = 0u64;
+    {
+        let elems: Vec<Tlv> = vec![
+            Tlv::octets(vec![0x55; 300]),
+            Tlv::prim(0, 5, vec![]),
+            Tlv::seq(vec![Tlv::int(1), Tlv::octets(vec![7; 130])]),
+            Tlv::int(-129),
+            Tlv::seq(vec![]),
+            Tlv::octets(vec![1; 70_000]),
+            Tlv::prim(2, 3, vec![9]),
+        ];
+        for first in 0..elems.len() {
+            for second in 0..elems.len() {
+                let a = ber::encode(&elems[first]);
+                let b = ber::encode(&elems[second]);
+                let cuts: Vec<usize> = (1..a.len()).filter(|k| *k < 8 || *k % 97 == 0 || *k + 3 > a.len()).collect();
+                for cut in cuts.iter().copied().chain(std::iter::once(0)) {
+                    parser_reuse += 1;
+                    evals.fetch_add(1, Ordering::Relaxed);
+                    let (a2, b2, want_a, want_b) = (a.clone(), b.clone(), elems[first].clone(), elems[second].clone());
+                    let r = catch(move || {
+                        let mut p = lber::parse::Parser::new();
+                        if cut > 0 {
+                            match p.parse(&a2[..cut]) {
+                                Err(lber::Err::Incomplete(_)) => {}
+                                other => return Err(format!("a {}-octet prefix of a {}-octet element gave {:?}", cut, a2.len(), other.map(|x| x.0.len()))),
+                            }
+                        }
+                        // the whole first element followed by the second in one buffer
+                        let mut both = a2.clone();
+                        both.extend_from_slice(&b2);
+                        match p.parse(&both) {
+                            Ok((rest, t)) if rest.len() == b2.len() && ber::from_lber(&t) == want_a => {}
+                            other => return Err(format!("first element ({} octets, after a {}-octet attempt): {:?}", a2.len(), cut, other.map(|x| x.0.len()))),
+                        }
+                        match p.parse(&b2) {
+                            Ok((rest, t)) if rest.is_empty() && ber::from_lber(&t) == want_b => Ok(()),
+                            other => Err(format!("second element ({} octets) after a first of {} octets (tried at {} octets first): {:?}", b2.len(), a2.len(), cut, other.map(|x| x.0.len()))),
+                        }
+                    });
+                    match r {
+                        Ok(Ok(())) => {}
+                        Ok(Err(e)) => {
+                            rep.violation("parse:parser-reuse", &e, json!({"engine":"c07","case":"parser-reuse","first":first,"second":second,"cut":cut}));
+                        }
+                        Err(p) => {
+                            rep.violation("parse:panic", &format!("Parser reuse panicked: {}", p), json!({"engine":"c07","case":"parser-reuse"}));
+                        }
+                    }
+                }
+            }
+        }
+    }
+
     // ---- b. lengths across the form boundaries
     let mut sizes: Vec<usize> = (0..=130).collect();
     sizes.extend(254..=258);
